@@ -72,7 +72,7 @@ def conf_full(seed, knobs=None):
              sch=0.3, steps=14)
     k.update(knobs or {})
     rng = random.Random(seed)
-    nw = rng.choice([1, 1, 2, 2, 3])
+    nw = k.get("nw") or rng.choice([1, 1, 2, 2, 3])
     ws = []
     for i in range(nw):
         w = {"name": "w%d" % (i + 1), "np": rng.choice([0, 1, 1, 2, 2, 3]),
@@ -107,7 +107,7 @@ def conf_full(seed, knobs=None):
     s.append({"op": "tick", "n": rng.randint(0, 8)})
     cmds = ["incr", "decr", "set_np", "set_multi", "restart", "reload", "kill", "stop", "start", "status", "numprocesses",
             "signal", "list"]
-    p = {"cmds": k.get("cmds", cmds), "childsel": k.get("childsel", 0.2)}
+    p = {"cmds": k.get("cmds", cmds), "childsel": k.get("childsel", 0.2), "patterns": k.get("patterns", 0.15)}
     for _ in range(rng.randint(2, k["steps"])):
         r = rng.random()
         w = rng.choice(names)
@@ -134,7 +134,7 @@ def conf_full(seed, knobs=None):
             s.append({"op": "spawnfault", "kinds": [rng.choice(["OSError", "ValueError", None])
                                                      for _ in range(rng.randint(1, 3))]})
         elif r < 0.72 and rng.random() < k["dsig"] * 5:
-            s.append({"op": "dsig", "sig": rng.choice([scenario.SIGTERM, scenario.SIGINT, scenario.SIGQUIT])})
+            s.append({"op": "dsig", "sig": rng.choice([scenario.SIGTERM, scenario.SIGINT, scenario.SIGQUIT, scenario.SIGHUP, scenario.SIGHUP, 28])})
         else:
             s.append({"op": "tick", "n": rng.randint(1, 5)})
         if rng.random() < k["probe"]:
@@ -535,3 +535,13 @@ def conf_kids(seed):
 
 
 PROFILES["conf_kids"] = conf_kids
+
+
+def conf_pat(seed):
+    """conformance profile for name patterns: start / stop / restart of several watchers at once (priorities,
+    warm-up delays), next to operations on single watchers"""
+    return conf_full(seed, {"patterns": 0.7, "hooks": 0.2, "faults": 0.1, "fork": 0.05, "nw": 3,
+                            "cmds": ["start", "stop", "restart", "restart", "stop", "start", "incr", "kill", "status"]})
+
+
+PROFILES["conf_pat"] = conf_pat
